@@ -47,6 +47,26 @@ def evidence_table():
                    c.get("oracle_evaluations"), c.get("events"), c.get("sim_time_s"), e["wall_s"], c.get("runs_per_hour"), len(c.get("faults_fired") or {})))
     return "\n".join(out)
 
+def seed_stats():
+    w = {1: [0, 0, 0], 2: [0, 0, 0]}
+    for d in sorted(glob.glob(os.path.join(root, "seeded", "*"))):
+        mp = os.path.join(d, "meta.json")
+        if not os.path.exists(mp):
+            continue
+        m = json.load(open(mp))
+        pid, k = os.path.basename(d).split("-")
+        k = int(k)
+        wave = 1 if (k <= 3 or (pid == "C01" and k <= 4)) else 2
+        c = m.get("confirmed_by_main_session", {})
+        w[wave][0] += 1
+        if "first missed" in str(c.get("check_result", "")).lower():
+            w[wave][1] += 1
+        if not c.get("caught_by_registered_check"):
+            w[wave][2] += 1
+    return ("Counts (generated from `seeded/*/meta.json`): first wave %d changes, %d caught by the check as it stood, %d caught after strengthening, %d not caught by the property's own check; "
+            "second wave %d changes, %d caught as it stood, %d after strengthening, %d not caught by the property's own check." % (
+                w[1][0], w[1][0] - w[1][1] - w[1][2] + 0, w[1][1], w[1][2], w[2][0], w[2][0] - w[2][1] - w[2][2], w[2][1], w[2][2]))
+
 def replace(doc, name, body):
     pat = re.compile(r"(<!-- BEGIN %s -->\n)(.*?)(<!-- END %s -->)" % (name, name), re.S)
     if not pat.search(doc):
@@ -58,5 +78,6 @@ doc = open(p).read()
 doc = replace(doc, "FINDINGS", findings_table())
 doc = replace(doc, "SEEDED", seeded_table())
 doc = replace(doc, "EVIDENCE", evidence_table())
+doc = replace(doc, "SEEDSTATS", seed_stats())
 open(p, "w").write(doc)
 print("DESIGN.md tables regenerated")
